@@ -131,6 +131,7 @@ pub struct Stats {
     pub samples: Vec<Value>,
     pub capped: Option<String>,
     pub max_depth: usize,
+    pub wall_s: f64,
 }
 
 impl Stats {
@@ -187,6 +188,7 @@ pub fn hist_json(sc: &Scenario, hist: &[Op]) -> Value {
 /// Breadth-first exploration. Returns stats and all violations (deduplicated by signature, first = shortest).
 pub fn bfs(sc: &Scenario, oracles: &[&dyn Oracle], lim: &Limits) -> (Stats, Vec<Violation>) {
     let mut stats = Stats::default();
+    let t_start = Instant::now();
     let mut viols: Vec<Violation> = Vec::new();
     let mut seen: HashSet<Fp> = HashSet::new();
     let w0 = sc.replay(&[]);
@@ -309,6 +311,7 @@ pub fn bfs(sc: &Scenario, oracles: &[&dyn Oracle], lim: &Limits) -> (Stats, Vec<
         }
         frontier = next;
     }
+    stats.wall_s = t_start.elapsed().as_secs_f64();
     (stats, viols)
 }
 
@@ -407,6 +410,7 @@ impl Report {
             "levels": s.levels.iter().map(|(l,n,t)| json!({"depth":l,"new_states":n,"transitions":t})).collect::<Vec<_>>(),
             "max_depth": s.max_depth,
             "capped": s.capped,
+            "wall_s": s.wall_s,
             "outcomes": s.outcomes,
         }));
         let samples = self.coverage.entry("samples".to_string()).or_insert_with(|| json!([]));
